@@ -589,6 +589,59 @@ func c06(c *core.Ctx) {
 		c06Backward(k, gen.Msg(k.R, gen.Opt{Protected: true, AllowEmpty: true, MaxPayloads: 4}), k.Index%36)
 	})
 	c.Family("bwd-empty", 36, func(k *core.Case) { c06Backward(k, gen.Header(k.R), k.Index%36) })
+	// several genuine peer datagrams sit back to back in ONE receive buffer (a batch read); each is presented as a
+	// sub-slice whose capacity runs into the next: every one must be accepted and decoded correctly, in any order
+	c.Family("bwd-back-to-back", c.N(36*12, 36*2000), func(k *core.Case) {
+		s, init, pre := cell(k.Index % 36)
+		raw := libsa.RandomRaw(k.R, s)
+		dir := raw.Dir(init)
+		n := 2 + k.R.Intn(3)
+		var msgs []*abs.Msg
+		var offs []int
+		var buf []byte
+		for i := 0; i < n; i++ {
+			m := gen.Msg(k.R, gen.Opt{Protected: true, MaxPayloads: 2, AllowEmpty: true})
+			inner, first, err := ref.EncodeChain(m.Payloads, nil)
+			if err != nil || len(inner) > 3000 {
+				return
+			}
+			padn := (16 - (len(inner)+1)%16) % 16
+			w, err := ref.ProtectRaw(m, first, inner, s, dir, k.R.Bytes(16), k.R.Bytes(padn), nil)
+			if err != nil {
+				return
+			}
+			msgs = append(msgs, m)
+			offs = append(offs, len(buf))
+			buf = append(buf, w...)
+		}
+		offs = append(offs, len(buf))
+		buf = append(buf, make([]byte, 64)...)[:len(buf)] // spare room behind the last one too
+		key, kerr := libsa.NewKey(raw)
+		if kerr != nil {
+			return
+		}
+		order := k.R.Pick(0, 1) // in arrival order, or last first
+		for j := 0; j < n; j++ {
+			i := j
+			if order == 1 {
+				i = n - 1 - j
+			}
+			k.Eval(1)
+			view := buf[offs[i]:offs[i+1]] // capacity reaches to the end of the buffer
+			d, err, p := libUnprotect(view, pre, key, !init)
+			w := M{"suite": s.Name(), "keys": raw.JSON(), "datagram_index": i, "datagrams_in_buffer": n, "buffer": core.HexClip(buf, 4096)}
+			if p != nil {
+				k.Violate("panic", "back-to-back: "+p.Sig(), "panic", panicData(p, w))
+				return
+			}
+			if err != nil || !abs.Equal(msgs[i], d) {
+				k.Violate("interop", "genuine-datagram-rejected-when-others-share-its-buffer", fmt.Sprintf("datagram %d of %d in one buffer: %v", i+1, n, err), w)
+				return
+			}
+		}
+		k.Count("batches_of_datagrams_in_one_buffer", 1)
+		k.Distinct(fmt.Sprintf("b2b|%s|%d|%d", s.Name(), n, order))
+	})
 	c.Family("fwd-cells-x-size-thresholds", 18*32, func(k *core.Case) {
 		sizes := []int{4, 11, 12, 13, 15, 16, 17, 31, 32, 33, 255, 256, 257, 1023, 1024, 1025, 4095, 4096, 4097, 8191, 8192, 8193, 16383, 16384, 16385, 32767, 32768, 32769, 65000, 65400, 240, 241}
 		inner := sizes[k.Index/18%len(sizes)]
@@ -745,7 +798,7 @@ func c06(c *core.Ctx) {
 		k.Distinct(fmt.Sprintf("limit|ok|%s|%d", s.Name(), inner/16))
 	})
 	freshFamily(c, "C06", "fresh-process", c.N(3, 60))
-	c.Require("fwd_cells_x_size_thresholds", "colliding_ciphertext_pairs_presented", "fresh_process_cases_ok", "searched_crypto_value_found", "payload_list_sent_in_three_messages", "at_limit_refused_with_error", "at_limit_protected_ok", "msg_object_completed-after-plain-encode", "msg_object_header-parsed-from-a-protected-datagram", "msg_object_object-decoded-from-another-datagram", "msg_object_NewMessage")
+	c.Require("batches_of_datagrams_in_one_buffer", "fwd_cells_x_size_thresholds", "colliding_ciphertext_pairs_presented", "fresh_process_cases_ok", "searched_crypto_value_found", "payload_list_sent_in_three_messages", "at_limit_refused_with_error", "at_limit_protected_ok", "msg_object_completed-after-plain-encode", "msg_object_header-parsed-from-a-protected-datagram", "msg_object_object-decoded-from-another-datagram", "msg_object_NewMessage")
 }
 
 var _ = message.TypeSK
